@@ -1149,6 +1149,77 @@ async def serial_case(ctx, stream: bytes, chunk_sizes: list[int], writes: list[s
     ctx.case(("serial", stream, tuple(chunk_sizes[:20]), tuple(writes)), nontrivial=True, sample=case)
 
 
+async def cancelled_connect_case(ctx, k: int, host: str) -> None:
+    """The application gives up on a connection attempt (task.cancel() / wait_for timeout against a gateway that is slow to
+    answer) after k loop iterations and tries again: the new attempt reaches the (healthy) peer, lines flow both ways."""
+    from aiomysensors.transport.tcp import TCPTransport
+
+    received = bytearray()
+
+    async def handler(reader, writer) -> None:
+        writer.write(b"7;0;1;0;2;after retry\n")
+        try:
+            await writer.drain()
+            while True:
+                data = await reader.read(4096)
+                if not data:
+                    break
+                received.extend(data)
+        except OSError:
+            pass
+        finally:
+            writer.close()
+
+    server = await asyncio.start_server(handler, "127.0.0.1", 0)
+    port = server.sockets[0].getsockname()[1]
+    case = {"engine": "cancelled-connect", "k": k, "host": host}
+    ctx.case(("cancelled-connect", k, host), nontrivial=True, sample=case)
+    transport = TCPTransport(host, port)
+    try:
+        attempt = asyncio.ensure_future(transport.connect())
+        for _ in range(k):
+            await asyncio.sleep(0)
+        attempt.cancel()
+        try:
+            await attempt
+            ctx.obs("cancelled-connect:first-attempt-completed")
+        except asyncio.CancelledError:
+            ctx.obs("cancelled-connect:first-attempt-cancelled")
+        except Exception as exc:  # noqa: BLE001
+            ctx.obs("cancelled-connect:first-attempt-raised:" + type(exc).__name__)
+        ctx.clause("connect-after-cancelled-attempt")
+        try:
+            await asyncio.wait_for(transport.connect(), 30)
+        except asyncio.TimeoutError:
+            ctx.obs("cancelled-connect-watchdog")
+            return
+        except Exception as exc:  # noqa: BLE001
+            ctx.violation("connect-raises", f"a connection attempt was cancelled after {k} loop iterations; the next connect() to "
+                                            f"the listening peer raised {type(exc).__name__}: {exc!s:.100}", case)
+            return
+        try:
+            line = await asyncio.wait_for(transport.read(), 30)
+            await transport.write("7;0;1;0;2;from client\n")
+            await asyncio.wait_for(transport.disconnect(), 30)
+            for _ in range(200):
+                if received.endswith(b"\n"):
+                    break
+                await asyncio.sleep(0.01)
+        except asyncio.TimeoutError:
+            ctx.obs("cancelled-connect-watchdog")
+            return
+        except Exception as exc:  # noqa: BLE001
+            ctx.violation("io-error-after-reconnect", f"after the retried connect: {type(exc).__name__}: {exc!s:.100}", case)
+            return
+        if line != "7;0;1;0;2;after retry\n":
+            ctx.violation("reads-differ-from-stream", f"after the retried connect read {line!r}", case)
+        if b"7;0;1;0;2;from client\n" not in bytes(received):
+            ctx.obs("cancelled-connect:write-not-seen-in-time")
+    finally:
+        server.close()
+        await server.wait_closed()
+
+
 def abandoned_connection_case(ctx, variant: str) -> None:
     """An application whose event loop died (asyncio.run ended by an error) never left the transport cleanly; it starts a
     new loop and connects again with the SAME transport object while the gateway is not reachable: a failed connection
@@ -1462,6 +1533,8 @@ def run_case(ctx, case: dict) -> None:
     elif case.get("engine") == "tcp-reconnect":
         arun(reconnect_case(ctx, case["first_end"], bytes.fromhex(case["stream"]), case["writes"],
                             case.get("disconnect_between", True)))
+    elif case.get("engine") == "cancelled-connect":
+        arun(cancelled_connect_case(ctx, case["k"], case["host"]))
     elif case.get("engine") == "abandoned-connection":
         abandoned_connection_case(ctx, case["variant"])
     elif case.get("engine") == "serial-url":
@@ -1546,6 +1619,17 @@ def run(ctx) -> None:
                     ctx.clause("dictionary-stream")
                     arun(tcp_case(ctx, stream, [rng.choice([1, 3, 64, 65536])], ["w\n"], None))
                     arun(reader_case(ctx, stream, (len(stream) // 2,), eof=True))
+            # the same failures on an event loop in asyncio debug mode (python -X dev, asyncio.run(debug=True))
+            from ..harness import run_debug
+
+            for i, (stream, fault) in enumerate([(b"1;0;1;0;2;a\n2;0;1;0;2;b\n", "reset-after-stream"), (b"1;0;1;0;2;a\nhalf", None),
+                                                 (b"x" * 70000 + b"\nafter\n", "reset-after-stream"), (b"\xff\xfe\n", None)]):
+                if ctx.mine(i + 1):
+                    ctx.clause("debug-mode-loop")
+                    run_debug(tcp_case(ctx, stream, [7, 65536], ["w1\n", "w2\n"], fault))
+            if ctx.mine(3):
+                ctx.clause("debug-mode-loop")
+                run_debug(reconnect_case(ctx, "reset", b"4;1;1;0;2;1\nsecond;2\n", ["w1\n"]))
             for i, first_end in enumerate(("eof", "reset", "open", "eof-midline", "reset", "eof-midline")):
                 if ctx.mine(i):
                     arun(reconnect_case(ctx, first_end, b"4;1;1;0;2;1\nsecond;2\n", ["w1\n", "w2 \xe5\n"]))
@@ -1578,6 +1662,15 @@ def run(ctx) -> None:
             for i in range(ctx.pick(3, 40) // ctx.shard_count + 1):
                 two_loop_backpressure(ctx, rng.choice([3, 5, 8]), rng.choice([2000, 20000, 70000]),
                                       ctx.seed * 100000 + ctx.shard_index * 1000 + 500 + i, loops=rng.choice([2, 2, 3]))
+        index = 0
+        for host in ("127.0.0.1", "localhost"):
+            for k in (0, 1, 2, 3, 5, 8):
+                index += 1
+                if ctx.mine(index):
+                    try:
+                        arun(cancelled_connect_case(ctx, k, host))
+                    except OSError as err:
+                        ctx.skip("cancelled-connect", str(err))
         for i, variant in enumerate(("plain", "pending-read", "loop-left-open")):
             if ctx.mine(i + 6):
                 try:
